@@ -255,11 +255,17 @@ def run(res, f, tier):
     ob([(e[0]) for e in t] == ["hole"] and show(norm(t[0][1])) == "self.Bool.0", "C16|leaf|Bool", "booleans must be printed as true / false")
     ob([e for e in vt["None"][0]] == [("lit", "none")], "C16|leaf|None", "the none value must be printed as `none`")
     # strings: "<escaped payload>" where escaping inverts the unescape table on the two characters the token cannot contain raw
+    for tag in image_tags:
+        ob(len(vt[tag]) == 1, "C16|leaf|%s|paths" % tag,
+           "the printed form of a %s value depends on its content (%d different templates): every form must be checked, only one is recognised" % (tag, len(vt[tag])),
+           {"templates": [[(e[1] if e[0] == "lit" else show(norm(e[1]))) for e in t_] for t_ in vt[tag]]})
     t = vt["String"][0]
     shape = [(e[1] if e[0] == "lit" else show(norm(e[1]))) for e in t]
     esc_ok = False
     why = "the payload is interpolated without escaping"
-    if len(shape) == 3 and shape[0] == '"' and shape[2] == '"':
+    if len(vt["String"]) != 1:
+        why = "content-dependent printing (see C16|leaf|String|paths)"
+    elif len(shape) == 3 and shape[0] == '"' and shape[2] == '"':
         m = re.fullmatch(r"str::replace\(str::replace\(self\.String\.0, 92, '(.*)'\), 34, '(.*)'\)", shape[1])
         if m and m.group(1) == "\\\\\\\\" and m.group(2) == '\\\\"':
             # backslash first, then quote: image = ([^"\\] | \\\\ | \\")*
